@@ -528,6 +528,25 @@ fn main_random(budget: u64) {
             }
         }
     }
+    // an over-long line (dropped) in the middle of an open record: the sub-lines after it still belong to the record
+    for long in [170_000usize, 400_000] {
+        for (pre, post) in [("FUNC 1000 40 0 f\n1000 10 1 0\n", "1010 10 2 0\nPUBLIC 2000 0 p\n"), ("STACK CFI INIT 1000 40 .cfa: $rsp 8 + .ra: .cfa 8 - ^\n", "STACK CFI 1010 .cfa: $rsp 16 +\nPUBLIC 2000 0 p\n"),
+                            ("FUNC 1000 40 0 f\nINLINE_ORIGIN 0 i\n", "1010 10 2 0\n")] {
+            let mut data: Vec<u8> = b"MODULE Linux x86_64 000 a\nFILE 0 a.c\n".to_vec();
+            data.extend_from_slice(pre.as_bytes());
+            data.extend(std::iter::repeat(b'J').take(long));
+            data.push(b'\n');
+            data.extend_from_slice(post.as_bytes());
+            let n = data.len();
+            for mode in 0..3 {
+                id += 1;
+                let mut step = 0;
+                let sched: Box<dyn FnMut(usize, usize) -> usize> = match mode { 0 => Box::new(|_r, o| o), 1 => Box::new(|_r, _o| 4096),
+                    _ => Box::new(move |_r, _o| { step += 1; if step == 1 { n / 2 } else { usize::MAX } }) };
+                run_one(&log, id, &data, pre.starts_with("FUNC 1000 40 0 f\n1000") || pre.starts_with("STACK"), 41, sched);
+            }
+        }
+    }
     // names whose length sits around 4 KiB with a multi-byte character straddling each nearby byte offset
     for pad in 4088usize..=4100 {
         for rec in ["FUNC 10 10 0 ", "PUBLIC 10 0 ", "FILE 1 ", "INLINE_ORIGIN 1 "] {
